@@ -23,6 +23,17 @@ Qed.
 
 Section D.
 Variable foi : Z -> option str.
+Variable pol : nat -> bool.     (* the open choice: which families of alternative spellings are handled *)
+Notation check := (check pol).
+Notation check_tuple := (check_tuple pol).
+Notation check_fields := (check_fields pol).
+Notation denote := (denote pol).
+Notation denote_anns := (denote_anns pol).
+Notation denote_fields := (denote_fields pol).
+Notation parse_ann := (parse_ann pol).
+Notation parse_atuple := (parse_atuple pol).
+Notation parse_afields := (parse_afields pol).
+Notation unsup_at := (unsup_at pol).
 
 (* ---------------- parse_ann = parse on every annotation that denotes an accepted type ---------------- *)
 Definition pd_ann (a : ann) : Prop :=
@@ -44,6 +55,7 @@ Proof.
   - intros T H d p. inversion H. reflexivity.
   - intros k T H d p. destruct k; inversion H; reflexivity.
   - intros T H. discriminate.
+  - intros fam a IH T H d p. simpl in H. simpl. destruct (pol fam); [apply IH; assumption | discriminate].
   - intros a IH T H d p. simpl in H. destruct (denote a) as [t|]; [|discriminate]. inversion H; subst.
     simpl. destruct d; try reflexivity; apply IH; reflexivity.
   - intros ms _ hn T H. discriminate.
@@ -88,6 +100,7 @@ Proof.
   - intros p. simpl. split; [discriminate | reflexivity].
   - intros k p. destruct k; simpl; split; try discriminate; try reflexivity. intro H; contradiction.
   - intros p. simpl. split; [discriminate | intro H; contradiction].
+  - intros fam a IH p. simpl. destruct (pol fam); [apply IH | split; [discriminate | intro H; contradiction]].
   - intros a IH p. simpl. rewrite omap_none. apply IH.
   - intros ms _ hn p. simpl. split; [discriminate | intro H; contradiction].
   - intros a IH p. simpl. rewrite omap_none. apply IH.
@@ -137,6 +150,9 @@ Proof.
   - intros rk p k q H. destruct rk; simpl in H; try discriminate. inversion H; subst.
     apply here_unsup. constructor.
   - intros p k q H. inversion H; subst. apply here_unsup. constructor.
+  - intros fam a IH p k q H. simpl in H. destruct (pol fam) eqn:Ef.
+    + destruct (IH _ _ _ H) as (q' & -> & Hu). exists q'. split; [reflexivity | apply un_alt_on; assumption].
+    + inversion H; subst. apply here_unsup. apply un_alt_off. assumption.
   - intros a IH p k q H. simpl in H. destruct (IH _ _ _ H) as (q' & -> & Hu).
     exists q'. split; [reflexivity | constructor; assumption].
   - intros ms _ hn p k q H. inversion H; subst. apply here_unsup. constructor.
@@ -182,7 +198,8 @@ Qed.
 
 Lemma unsup_denote_none : forall a q k, unsup_at a q k -> denote a = None.
 Proof.
-  induction 1; simpl; try reflexivity; try (rewrite IHunsup_at; reflexivity).
+  induction 1; simpl; try reflexivity; try (rewrite IHunsup_at; reflexivity);
+    try (match goal with E : pol _ = _ |- _ => rewrite E end; try assumption; reflexivity).
   - rewrite (anth_denote_none _ _ _ H IHunsup_at). reflexivity.
   - rewrite (afield_denote_none _ _ _ _ H IHunsup_at). reflexivity.
 Qed.
@@ -206,6 +223,8 @@ Proof.
   apply ann_mutind; unfold sb_ann, sb_anns, sb_fields;
     try (intros Hd b Hs; inversion Hs; subst; assumption).
   - intros k Hd b Hs. inversion Hs; subst. assumption.
+  - intros fam a IH Hd b Hs. inversion Hs; subst; [assumption|]. apply IH; [|assumption].
+    simpl in Hd. destruct (pol fam); [assumption | contradiction].
   - intros a IH Hd b Hs. inversion Hs; subst; [assumption|]. apply IH; [|assumption].
     simpl in Hd. apply omap_none in Hd. assumption.
   - intros ms _ hn Hd. simpl in Hd. contradiction.
